@@ -90,20 +90,25 @@ def nv_cauerI_rejects := cauerI_rejects (3 : ℚ) 2 (by decide) (by norm_num) [(
 /-- 3/s + 5 + 2s -/
 def dRLC : Coll ℚ := ⟨some 5, some 2, some 3, false⟩
 
+theorem dRLC_nonzero : dRLC.EntriesNonzero := by
+  refine ⟨fun v h => ?_, fun v h => ?_, fun v h => ?_⟩ <;>
+  · simp only [dRLC, Option.some.injEq] at h; subst h; norm_num
+
 def nv_series_forms_realise :=
   series_forms_realise dRLC 2 _ (by norm_num) (Or.inr (Or.inr (Or.inr (Or.inr (rfl : seriesRLC dRLC = some (some _))))))
+    dRLC_nonzero
 
 theorem nv_parallel_forms_realise : ∃ net : Net ℚ, parallelRLC dRLC = some (some net) ∧ 1 / net.Z 2 = dRLC.value 2 := by
-  refine ⟨_, rfl, parallel_forms_realise dRLC 2 _ (by norm_num) ?_ (Or.inr (Or.inr (Or.inr (Or.inr rfl))))⟩
+  refine ⟨_, rfl, parallel_forms_realise dRLC 2 _ (by norm_num) ?_ (Or.inr (Or.inr (Or.inr (Or.inr rfl)))) dRLC_nonzero⟩
   norm_num [Net.Z, dRLC]
 
 def nv_reject_otherwise := reject_otherwise (⟨some 1, none, none, true⟩ : Coll ℚ) rfl
 def nv_reject_missing_element := reject_missing_element dRLC
 
-def nv_fosterI_realises :=
-  fosterI_realises [Net.R (1 : ℚ), .par (.R 3) (.C (1/3)), .L 2] _ 2 rfl
-def nv_fosterII_realises :=
-  fosterII_realises [Net.R (1 : ℚ), .ser (.R 3) (.C (1/3)), .L 2] _ 2 rfl
+def nv_serAll_Z :=
+  serAll_Z [Net.R (1 : ℚ), .par (.R 3) (.C (1/3)), .L 2] _ 2 rfl
+def nv_parAll_Y :=
+  parAll_Y [Net.R (1 : ℚ), .ser (.R 3) (.C (1/3)), .L 2] _ 2 rfl
 
 /-- Z = 1 + (3/2)/s + (1/2)/(s + 2): quotient 1, residues 3/2 at 0 and 1/2 at -2 -/
 theorem nv_fosterI_realises_terms : ∃ net : Net ℚ,
